@@ -157,5 +157,6 @@ LvIsEval(o) == o.op = "evaluate"
 \* behaviours worth replaying: the last operation is an evaluation and some edit precedes it
 LvWorth == /\ Len(c.ops) >= 2 /\ LvIsEval(c.ops[Len(c.ops)])
            /\ \E i \in 1..(Len(c.ops) - 1) : LvIsEdit(c.ops[i]) /\ c.ops[i].how # "argbuf-noalias"
-LvWalkEmit == (Emit /\ LvWorth) => PrintT("@@CASE " \o ToJson([kind |-> "livewalk", ops |-> c.ops]) \o " @@END")
+LvWalkEmit == /\ (Emit /\ LvWorth) => PrintT("@@CASE " \o ToJson([kind |-> "livewalk", ops |-> c.ops]) \o " @@END")
+              /\ (Emit /\ c.ops = <<>>) => PrintT("@@CASE " \o ToJson([kind |-> "livetags", tags |-> LvTags]) \o " @@END")
 =============================================================================
